@@ -180,6 +180,8 @@ class Ctx(object):
         if self.nproc <= 1 or len(items) <= 1:
             return [func(i) for i in items]
         mp = multiprocessing.get_context('fork')
+        import gc
+        gc.freeze()     # keep the parent's objects out of the children's GC (no copy-on-write storms)
         with mp.Pool(min(self.nproc, len(items))) as pool:
             return pool.map(_Guard(func), items, chunksize)
 
